@@ -289,3 +289,32 @@ def contextmanagers_yield_once(repo: Repo, rep, rule: str) -> int:
             counts = sorted(ins.get(cfg.exit.id, set()))
             rep.check(counts == [1], rule, fq, f"yields per non-raising path: {counts}", f"the context manager yields {counts} times depending on the path: with 0 the `with` statement using it raises RuntimeError('generator didn't yield') and the caller's thread dies before doing its work, with 2 it raises on exit", mod=m, node=fn)
     return n
+
+
+IO_CALLS = ("open", "dcmread", "read_dataset", "read", "stat", "exists", "listdir", "getsize", "recv", "get")
+
+
+def no_memoised_io(repo: Repo, rep, rule: str) -> int:
+    """A memoising decorator (functools.lru_cache / cache, or a hand-made dict cache is not looked for) on a
+    function whose result depends on something outside its arguments - a file's content, a socket, the
+    clock, mutable configuration - returns the answer of an earlier call: the File Meta of a file that has
+    since been rewritten, the contexts of an earlier association. No function of the package is memoised
+    today (0 expected); a memoised function is accepted only if its body is free of I/O and of reads of
+    module-level mutable configuration."""
+    n = 0
+    for mname, m in sorted(repo.modules.items()):
+        short = mname.replace("pynetdicom.", "")
+        if short.startswith(("tests", "benchmarks")) or ".tests" in short:
+            continue
+        for fn in [f for f in ast.walk(m.tree) if isinstance(f, ast.FunctionDef)]:
+            n += 1
+            for d in fn.decorator_list:
+                dn = norm(d.func if isinstance(d, ast.Call) else d).split(".")[-1]
+                if dn not in ("lru_cache", "cache", "cached_property"):
+                    continue
+                io = [c for c in ast.walk(fn) if isinstance(c, ast.Call) and (norm(c.func).split(".")[-1] in IO_CALLS or norm(c.func).startswith(("os.", "socket.", "time.")))]
+                cfgread = [a for a in ast.walk(fn) if isinstance(a, ast.Attribute) and norm(a.value) == "_config"]
+                if io or cfgread or dn == "cached_property":
+                    why = f"calls {norm(io[0].func)}()" if io else "reads _config" if cfgread else "is cached per object"
+                    rep.fail(rule, f"{short}.{qualname(fn) or fn.name}", fn, f"the function is memoised (@{dn}) but {why}: a later call with the same arguments gets the earlier answer although the file / configuration it depends on has changed - e.g. the transfer syntax of a file that was rewritten, so a data set is sent on a context chosen for the old one", mod=m, node=d)
+    return n
